@@ -31,6 +31,9 @@ def _chain(fn, var):
                 continue          # a range guard, not the dispatch chain
             if not s.orelse:
                 continue          # a single test is not a partition of the index space
+            if not (len(s.orelse) == 1 and isinstance(s.orelse[0], ast.If)):
+                if all(isinstance(b, ast.Raise) for b in s.orelse) or all(isinstance(b, ast.Raise) for b in s.body):
+                    continue      # `if in-range: ... else: raise` is the same range guard after normalisation
             return s
     return None
 
